@@ -8,7 +8,7 @@ class is entered, and the digest that is returned is `hash_function(sorted(<per-
 digest dict is built from `.items()` of that same dict and is also the second component of the result."""
 import z3
 
-from pyvc.engine import NOTHING_U, U, eq, is_z3, to_U, z3_and
+from pyvc.engine import NOTHING_U, U, Unsupported, eq, is_z3, to_U, z3_and
 from pyvc.verify import Contract
 
 SKIP_REASONS = "isinstance(_f, Out) or getattr(self, _f.name) is attrs.NOTHING or bool(getattr(_f, 'container_path', False))"
@@ -20,7 +20,8 @@ def contract():
         stores = [e for e in events if e.name == "setitem"]
         others = [e for e in events if e.name not in ("setitem",)]
         if others:
-            return False  # an effectful call inside the loop (none on the pinned tree): the contract has to be revisited
+            # an effectful call inside the loop (none on the pinned tree): the contract has to be revisited -> UNDECIDED
+            raise Unsupported(f"_compute_hashes loop body has new effects {[e.name for e in others]} (contract out of date)")
         if not stores:
             return E.eval_spec(SKIP_REASONS, st, {"_f": fld})
         if len(stores) != 1:
